@@ -273,3 +273,43 @@ Example C13_overwrite_satisfiable :
   fst (vol (fst st) (snd st)) = Ok [1%N] /\
   fst (vol (fst (exec st [OOverwrite [(1%N, 0#1)]])) (snd (exec st [OOverwrite [(1%N, 0#1)]]))) = Ok [].
 Proof. vm_compute. auto. Qed.
+
+(* ---------------------------------------------------------------- round 3: explicit heap of shared scope objects *)
+Require Import QV.C13.Heap QV.C13.ProofsHeap.
+
+(* SHARED OBJECTS.  `hrun s l st ops` runs a history of queries (lookups, views, volatile queries, ==) on an object
+   graph in which positions with the same id in the labelling `l` are ONE Python object with ONE set of memoisation
+   fields (store `st`: id -> _cache / _as_dict / _volatile_parameters[_cache]); what one entry of a joint scope memoises
+   is seen through every other entry that is the same object, also in the middle of a call.  For every registry G of
+   object structures, every labelling consistent with it, every store whose entries are valid for the registered
+   objects (the empty store; the store left by any earlier history; the fields retained objects carry over a
+   change_constants): the observations are those of the cache-free access paths, i.e. (C13_cache_refinement) those of
+   the tree model, i.e. (C13_views, C13_volatile, C13_volatile_expr) those the denotation prescribes. *)
+Theorem C13_heap_queries : forall G s l st ops,
+  reg_ok G s l -> sok G st -> forallb is_query ops = true ->
+  hrun s l st ops = prun s ops /\ hrun s l st ops = run (s, cempty) ops.
+Proof.
+  intros G s l st ops Hr Hc Hq. pose proof (hrun_ok G ops s l st Hr Hc Hq) as E.
+  split; [exact E|]. rewrite E. symmetry. apply run_fresh.
+Qed.
+Print Assumptions C13_heap_queries.
+
+(* every query leaves a valid store behind (so the theorem applies to the next history on the same graph) *)
+Theorem C13_heap_store_valid : forall G s l st o,
+  reg_ok G s l -> sok G st -> is_query o = true -> sok G (snd (hstep s l st o)).
+Proof. intros G s l st o Hr Hc Hq. exact (proj2 (proj2 (hstep_ok G s l st o Hr Hc Hq))). Qed.
+Print Assumptions C13_heap_store_valid.
+
+Theorem C13_heap_empty_store_valid : forall G, sok G [].
+Proof. exact sok_empty. Qed.
+Print Assumptions C13_heap_empty_store_valid.
+
+(* non-vacuity: a joint scope that holds one MappedScope object under two names and below a third entry; the labelling
+   is consistent; a lookup through the third entry fills the cache of the shared object (in the tree model the first
+   entry's copy stays empty) *)
+Example C13_heap_satisfiable :
+  reg_ok ex_G ex_J ex_lJ /\
+  n_cache (sget (snd (hget ex_J ex_lJ [] 3%N)) 1%N) = [(2%N, 3#1)] /\
+  c_cache (hd cempty (c_kids (snd (get ex_J cempty 3%N)))) = [] /\
+  hrun ex_J ex_lJ [] [OGet 3%N; OAsDict; OVol; OGet 2%N] = prun ex_J [OGet 3%N; OAsDict; OVol; OGet 2%N].
+Proof. split; [exact ex_reg|]. vm_compute. auto. Qed.
